@@ -256,7 +256,11 @@ func (e *Env) RunScenarios(res *Result, scs []*Scenario) {
 		e.replay(scs, res)
 		return
 	}
+	only := os.Getenv("VERIF_ONLY_SCENARIO") // debugging aid: run only the scenarios whose name contains this
 	for _, sc := range scs {
+		if only != "" && !strings.Contains(sc.Name, only) {
+			continue
+		}
 		e.explore(sc, res)
 	}
 }
